@@ -158,6 +158,7 @@ type broker struct {
 	generation int32
 	committed  map[int32]int64
 	group      *groupCoord // non-nil: multi-member coordinator
+	extraRecs  int         // records per fetch response beyond 4
 }
 
 // groupCoord is a small multi-member group coordinator (scaffolding): a JoinGroup or LeaveGroup starts a
@@ -444,7 +445,7 @@ func (b *broker) serve(c net.Conn) {
 					b.mu.Lock()
 					log := b.logs[p.Partition]
 					var recs []protocol.Record
-					for o := p.FetchOffset; o >= 0 && o < int64(len(log)) && len(recs) < 4; o++ {
+					for o := p.FetchOffset; o >= 0 && o < int64(len(log)) && len(recs) < 4+b.extraRecs; o++ {
 						recs = append(recs, protocol.Record{Offset: o, Time: time.Unix(1, 0), Value: protocol.NewBytes(log[o])})
 					}
 					hwm := int64(len(log))
@@ -819,11 +820,13 @@ func scenConn(rng *rand.Rand, rounds int) {
 	also("Conn.Write", "Conn.WriteCompressedMessages")
 	also("Conn.WriteCompressedMessagesAt", "Conn.WriteCompressedMessages")
 	also("Batch.Offset", "Batch.HighWaterMark", "Batch.Throttle", "Batch.Partition")
+	also("Batch.ReadAfterClose", "Batch.Close", "Batch.ReadMessage", "Batch.Read")
 	for _, m := range []string{"Start", "Absolute", "End", "Current", "AbsoluteDontCheck", "CurrentDontCheck"} {
 		also("Conn.Seek/"+m, "Conn.Seek")
 	}
 	for i := 0; i < rounds; i++ {
-		b := newBroker("t", 1, 8)
+		b := newBroker("t", 1, 16)
+		b.extraRecs = 8
 		c := kafka.NewConn(b.dial(), "t", 0)
 		c.SetDeadline(time.Now().Add(5 * time.Second))
 		var bmu sync.Mutex
@@ -878,13 +881,22 @@ func scenConn(rng *rand.Rand, rounds int) {
 			{"Batch.Err", func() { getBatch().Err() }},
 			{"Batch.Offset", func() { bt := getBatch(); bt.Offset(); bt.HighWaterMark(); bt.Throttle(); bt.Partition() }},
 			{"Batch.Close", func() { time.Sleep(2 * time.Millisecond); getBatch().Close() }},
+			{"Batch.ReadAfterClose", func() {
+				bt := getBatch()
+				bt.ReadMessage() // the record-batch header is consumed, records are left
+				bt.Close()
+				for k := 0; k < 4; k++ { // a closed batch must not touch the connection any more (D18)
+					bt.ReadMessage()
+					bt.Read(make([]byte, 8))
+				}
+			}},
 			{"Conn.Close", func() { time.Sleep(closeDelay); c.Close() }},
 		}
-		nConn := len(ops) - 6
+		nConn := len(ops) - 7
 		switch i % 4 {
 		case 0, 2:
 			// a Batch is open: operations that need the read lock wait for Batch.Close, which is always in
-			runRound(rng, "conn", i, ops[:len(ops)-1], 8, 12, "Batch.Close", "Batch.ReadMessage", "Batch.Err", "Conn.Seek/AbsoluteDontCheck", "Conn.Seek/Absolute")
+			runRound(rng, "conn", i, ops[:len(ops)-1], 8, 12, "Batch.Close", "Batch.ReadAfterClose", "Batch.ReadMessage", "Batch.Err", "Conn.Seek/AbsoluteDontCheck", "Conn.Seek/Absolute", "Conn.ReadOffsets", "Conn.ReadPartitions")
 		case 1:
 			runRound(rng, "conn", i, ops[:nConn], 8, 12, "Conn.Seek/Absolute", "Conn.Seek/CurrentDontCheck")
 		default:
